@@ -103,6 +103,66 @@ HANDLER = {"type": "_isinstance_cache(node, template)", "tuple": "_match_tuple("
 VALUE_NODES = [0, 1, 2, 0.0, 1.0, 2.5, 0j, 1 + 0j, True, False, None, "", "a", b"", b"a", Ellipsis]
 
 
+def gen_enumeration(g: Gen):
+    """every admissible count vector is enumerated: the REAL _iter_template_permutations is run on representative templates (k starred / plus /
+    optional wildcards between fixed elements) for lengths up to slack 24 and the number of expansions it yields is compared with the number of
+    solutions of  sum(c_i) == length, c_i in the declarative range  computed independently (dynamic programme).  Large slacks are part of the
+    space on purpose: a budget on the number of combinations tried would only show there."""
+    from pyvc.replay import call_real
+    fn, text = find_def("core", "_iter_template_permutations")
+    g.sha = segment_sha(text, fn)
+    g.lines = [fn.lineno, fn.end_lineno]
+    shapes = []
+    for kinds in ("*", "+", "?", "**", "*+", "*?", "***", "*+*", "+++", "*?*", "****", "*+?*", "*****"):
+        for slack in (0, 1, 2, 5, 12, 24):
+            if len(kinds) >= 4 and slack > 12 or len(kinds) >= 5 and slack > 7:
+                continue
+            shapes.append((kinds, slack))
+    snippet = (
+        "from pyrefact import core\n"
+        "import ast\n"
+        "Q = {'*': core.ZeroOrMany, '+': core.OneOrMany, '?': core.ZeroOrOne}\n"
+        "out = []\n"
+        "for kinds, slack in payload['shapes']:\n"
+        "    template = []\n"
+        "    for j, k in enumerate(kinds):\n"
+        "        template.append(Q[k](core.Wildcard('w%d' % j, object)))\n"
+        "        template.append(ast.Constant(value=j))\n"
+        "    minimum = len(kinds) + sum(1 for k in kinds if k == '+')\n"
+        "    length = minimum + slack\n"
+        "    seen = set()\n"
+        "    n = 0\n"
+        "    for perm in core._iter_template_permutations(template, length):\n"
+        "        n += 1\n"
+        "        seen.add(tuple(id(x) for x in perm))\n"
+        "        assert len(perm) == length\n"
+        "    out.append([n, len(seen)])\n"
+        "print(json.dumps(out))\n")
+    res = call_real(snippet, {"shapes": shapes}, timeout=600)
+
+    def solutions(kinds, slack):
+        # number of ways to distribute `slack` extra elements: '*' and '+' take any number, '?' at most one
+        ways = [1] + [0] * slack
+        for k in kinds:
+            new = [0] * (slack + 1)
+            for used, w in enumerate(ways):
+                if not w:
+                    continue
+                for extra in range(0, slack - used + 1):
+                    if k == "?" and extra > 1:
+                        break
+                    new[used + extra] += w
+            ways = new
+        return ways[slack]
+    for (kinds, slack), (n, distinct) in zip(shapes, res):
+        want = solutions(kinds, slack)
+        g.oblige("table", f"every-count-vector-enumerated-once:{kinds}:slack-{slack}", [], z3.BoolVal(n == want and distinct == want), fn.lineno,
+                 replay=lambda m, kinds=kinds, slack=slack, n=n, distinct=distinct, want=want: {
+                     "reproduced": True, "input": f"_iter_template_permutations(<{' c '.join(kinds)} c>, length = minimum + {slack})",
+                     "observed": f"{n} expansions ({distinct} distinct)", "required": f"{want} (one per admissible count vector)"})
+    g.assumptions.add("representative templates: up to five quantified wildcards separated by fixed elements, slack up to 24 (12 / 7 for four / five wildcards)")
+
+
 def gen_dispatch(g: Gen):
     """match_template: which branch handles which class of template, decided by evaluating the REAL guard expressions (compiled from
     the source text, side-effect free) on one representative per class; the final value branch on all (node, template) value pairs."""
